@@ -67,5 +67,16 @@ GOdd == [vs |-> <<"a", "b">>,
          es |-> <<"e1", "e2">>,
          E |-> [e1 |-> ERec("K1", "a", "b", DO1), e2 |-> ERec("K2", "b", "a", DO2)]]
 
-GraphFamily == <<GEmpty, GIso, GChain, GLoop, GDangle, GShared, GFan, GOdd>>
+\* 9 values of different JSON types that print alike (1 and "1", true and "true"), an empty text, a repeated value
+DT1 == M([x |-> N(1)])
+DT2 == M([x |-> S("1")])
+DT3 == M([x |-> S("")])
+DT4 == M([x |-> B(TRUE)])
+DT5 == M([x |-> S("true")])
+GTypes == [vs |-> <<"a", "b", "c", "d">>,
+           V |-> [a |-> VRec("L1", DT1), b |-> VRec("L1", DT2), c |-> VRec("L2", DT3), d |-> VRec("L2", DT1)],
+           es |-> <<"e1", "e2", "e3">>,
+           E |-> [e1 |-> ERec("K1", "a", "b", DT4), e2 |-> ERec("K1", "b", "c", DT5), e3 |-> ERec("K2", "c", "d", DT4)]]
+
+GraphFamily == <<GEmpty, GIso, GChain, GLoop, GDangle, GShared, GFan, GOdd, GTypes>>
 =======================================================================
